@@ -101,10 +101,40 @@ class SxText:
                 fn = z3.Function("str_%s_%s" % (name, abs(hash((a, tuple(sorted(k.items()))))) % 10 ** 8), Text, z3.BoolSort())
                 return mkbool(fn(self.e))
             return g
+        if name in ("split", "rsplit", "splitlines"):
+            def h(*a, **k):
+                if any(not isinstance(v, (str, int, type(None))) for v in list(a) + list(k.values())):
+                    raise Unsupported("str.%s with symbolic arguments on opaque text" % name)
+                fn = z3.Function("str_%s_%s" % (name, abs(hash((a, tuple(sorted(k.items()))))) % 10 ** 8), Text, TextList)
+                return SxTextList(fn(self.e))
+            return h
         raise Unsupported("str.%s on opaque text" % name)
 
     def __repr__(self):
         return "<SxText %s>" % self.e
+
+
+TextList = z3.DeclareSort("TextList")
+
+
+class SxTextList:
+    """result of str.split() on opaque text: only join / len-free use is supported"""
+    _sx_opaque = True
+
+    def __init__(self, e):
+        self.e = e
+
+    def __iter__(self):
+        raise Unsupported("iteration over the words of opaque text")
+
+    def __len__(self):
+        raise Unsupported("number of words of opaque text")
+
+
+def join_text(sep, lst):
+    if not isinstance(sep, str):
+        raise Unsupported("join with a symbolic separator")
+    return SxText(z3.Function("str_join_%s" % abs(hash(sep)), TextList, Text)(lst.e))
 
 
 class SxOpaqueBytes:
